@@ -42,10 +42,14 @@ def choice_tree(fn, max_draws, menu=None, max_draws_wide=1):
             k = sc.calls[len(prefix)]
             if any(len(a) != n for a, n in zip(prefix, sc.calls)):
                 raise RuntimeError("divergence: request sizes changed under the same prefix")
-            if len(prefix) >= max_draws or (k >= 2 and len(prefix) >= max_draws_wide):
+            if len(prefix) >= max_draws or (k >= 2 and len(prefix) >= max_draws_wide and not getattr(menu, "all_widths", False)):
                 yield prefix, PENDING, list(sc.calls)
                 continue
-            answers = menu(k, len(prefix)) if (menu is not None and k > 2) else all_answers(k)
+            answers = None
+            if menu is not None and (k > 2 or getattr(menu, "all_widths", False)):
+                answers = menu(k, len(prefix))
+            if answers is None:
+                answers = all_answers(k)
             for a in reversed(answers):
                 stack.append(prefix + (a,))
             continue
